@@ -21,11 +21,17 @@ def showEntry : Option (String × String) → String
 def showList (c : List (String × String)) : String :=
   "ok " ++ toString (names c).length ++ String.join ((names c).map fun n => "\t" ++ n)
 
+/-- reserved argument of the `*_name` / `mendel_z` lines: harness/c15_drv.c calls the lookup with a NULL pointer instead of a
+string.  A NULL name is not a name: the documented answer is an error and NULL / 0
+(GetCompoundDataNISTByName, GetRadioNuclideDataByName, Crystal_GetCrystal, SymbolToAtomicNumber). -/
+def nullToken : String := "%NULL%"
+
 def answer (nist nuc cry men : List (String × String)) (line : String) : String :=
   let parts := line.splitOn "\t"
   let cmd := parts.headD ""
   let a1 := parts.getD 1 ""
   let pick (k : String) := if k == "nist" then nist else if k == "nuclide" then nuc else cry
+  if a1 == nullToken && (cmd == "mendel_z" || cmd.endsWith "_name") then "err" else
   match cmd with
   | "mendel_sym" =>      -- AtomicNumberToSymbol: Z in [1, MENDEL_MAX] -> MendelArray[Z-1].name  (xraylib-parser.c:455-462)
       match a1.toInt? with
